@@ -67,9 +67,9 @@ fn main() {
             for &f in &files { plan.push((if g.below(4) == 0 { 0 } else { 3 }, f)); if g.below(4) == 0 { plan.push((5 + g.below(4), f)); } }
             if g.below(3) == 0 { plan.push((12, 0)); for &f in &files { if g.below(3) != 0 { plan.push((3, f)); } } }
             plan.push((9, 0));
-            plan.push((11, 0));
+            plan.push((if g.below(3) == 0 { 13 } else { 11 }, 0));
         }
-        for _ in 0..(4 + g.below(14)) { plan.push((g.below(13), g.below(3) as usize)); }
+        for _ in 0..(4 + g.below(14)) { plan.push((g.below(14), g.below(3) as usize)); }
         for (kind, si) in plan {
             total += 1;
             let src = srcs[si];
@@ -146,6 +146,30 @@ fn main() {
                     }
                     m.next.clear();
                     check_view(&st, &m, &log, "after failed save");
+                }
+                13 => {
+                    // the manifest on disk is for ANOTHER SCHEMA (same key), or unparsable: a reopen returns no entries and is not current,
+                    // so that the next save rewrites the manifest and collects the stale blobs
+                    let mf = root.join("manifest.toml");
+                    let Ok(text) = std::fs::read_to_string(&mf) else { continue };
+                    drop(st);
+                    let how = g.below(3);
+                    let new_text = match how {
+                        0 => "schema = [this is not a manifest\n".to_string(),
+                        _ => {
+                            let lines: Vec<String> = text.lines().map(|l| if l.starts_with("schema = ") { format!("schema = {}", if how == 1 { 1 } else { 3 }) } else { l.to_string() }).collect();
+                            if !text.lines().any(|l| l.starts_with("schema = ")) { fail(&log, "manifest.toml has a top-level `schema = N` line", text.clone(), "schema = N".into()); }
+                            lines.join("\n") + "\n"
+                        }
+                    };
+                    std::fs::write(&mf, new_text).unwrap();
+                    log.push(format!("drop; manifest on disk {}; open({})", match how { 0 => "corrupted (unparsable)", 1 => "rewritten with schema = 1 (same key)", _ => "rewritten with schema = 3 (same key)" }, m.key));
+                    st = cache::Store::open(&root, &m.key);
+                    m.disk = None;
+                    m.saved.clear();
+                    m.current = false;
+                    m.next.clear();
+                    check_view(&st, &m, &log, "after reopen of a manifest with another schema / unparsable");
                 }
                 _ => {
                     let other = g.below(4) == 0;
